@@ -502,3 +502,110 @@ def run_fresh_reference(prog, tier, repo):
                                   f'through get_mut silently drops or duplicates the comments of the other')
     res.floor('non-constant comment reference constructions', n, 1)
     return [res]
+
+
+# ---------------------------------------------------------------------------------------------------------------------
+# COMMENT-ORDER (C09): "comments keep their relative order".
+#
+# The parser glues comment vectors together with `X.append(&mut Y)` / `X.extend(Y)`. Comments reach the parser in source
+# order: a vector obtained from an earlier consume()/assert_and_consume_*() call holds comments that precede those obtained
+# from a later one, a parameter holds comments collected by the caller (older than anything this function lexes), and the
+# parser's own `pending_comments` always holds the newest ones. Concatenation keeps source order only if everything
+# already in X is at least as old as Y. Ages are compared by dominance of the producing calls.
+
+def run_comment_order(prog, tier, repo):
+    from ..cfg import cfg_of, single_def
+    from ..dataflow import operand_root
+    from ..facts import callee, strip_refs
+    res = RuleResult('COMMENT-ORDER', 'C09: whenever the parser concatenates two comment vectors, the comments already in the '
+                     'receiver were lexed before the appended ones (older first), so comments keep their source order')
+
+    def is_comment_vec(t):
+        t = strip_refs(t)
+        return t.k == 'adt' and t.name.startswith('std::vec::Vec') and t.args and t.args[0].k == 'adt' \
+            and t.args[0].name.endswith('::Comment')
+    n = 0
+    for b in prog.bodies.values():
+        if b.crate != 'samlang_parser':
+            continue
+        sites = []
+        for bi, bl in enumerate(b.blocks):
+            t = bl.term
+            if bl.cleanup or t[0] != 'call' or len(t[3]) != 2:
+                continue
+            nm = callee(t)[1] or ''
+            short = nm.split('::')[-1]
+            if short not in ('append', 'extend'):
+                continue
+            ok_ty = True
+            for o in t[3]:
+                if o[0] not in ('c', 'm') or not is_comment_vec(b.locals[o[1].local]):
+                    ok_ty = False
+            if not ok_ty:
+                continue
+            sites.append((bi, t))
+        if not sites:
+            continue
+        cfg = cfg_of(b)
+
+        def age(op):
+            r, p = operand_root(b, op)
+            if r is None:
+                return None, None
+            names = [e[4] for e in p if e[0] == 'f']
+            if 1 <= r <= b.nargs:
+                if names:
+                    return ('now',), (r, tuple(names))
+                return ('entry',), (r, ())
+            sd = single_def(b, r)
+            if sd and sd[1] == 'term':
+                cn = (callee(sd[2])[1] or '').split('::')[-1]
+                if cn in ('new', 'default', 'with_capacity'):
+                    return ('empty',), (r, ())
+                return ('call', sd[0]), (r, ())
+            if sd and sd[1] != 'term' and sd[2][0] == 'agg':
+                return ('empty',), (r, ())
+            return None, (r, ())
+
+        def older(a, c):
+            """a strictly older than c"""
+            if a is None or c is None or a[0] == 'empty' or c[0] == 'empty':
+                return False
+            if a[0] == 'entry':
+                return c[0] in ('call', 'now')
+            if a[0] == 'call':
+                if c[0] == 'now':
+                    return True
+                if c[0] == 'call':
+                    return a[1] != c[1] and cfg.nodes_dominate([a[1]], c[1]) and not cfg.can_reach(c[1], a[1])
+            return False
+        seen = {}
+        for bi, t in sites:
+            ax, kx = age(t[3][0])
+            ay, ky = age(t[3][1])
+            if kx is None or ky is None:
+                continue
+            n += 1
+            contents = [ax]
+            for bj, t2 in sites:
+                if bj == bi or not cfg.nodes_dominate([bj], bi):
+                    continue
+                a2x, k2x = age(t2[3][0])
+                if k2x == kx:
+                    contents.append(age(t2[3][1])[0])
+            xname = b.var_name(kx[0]) or ('.'.join(kx[1]) if kx[1] else f'_{kx[0]}')
+            if kx[1]:
+                xname = '.'.join(kx[1])
+            yname = ('.'.join(ky[1]) if ky[1] else (b.var_name(ky[0]) or 'a fresh result'))
+            base = f'{b.name}:{xname}<-{yname}'
+            seen[base] = seen.get(base, 0) + 1
+            key = base if seen[base] == 1 else f'{base}#{seen[base]}'
+            bad = [c for c in contents if older(ay, c)]
+            if bad:
+                res.violation(key, b.loc(t[7]), f'{b.name}: `{yname}` is appended to `{xname}`, but `{yname}` was obtained from the lexer '
+                              f'before what `{xname}` already holds: the earlier comments end up after the later ones and the '
+                              f'formatter prints them in swapped order')
+            else:
+                res.ok(key, b.loc(t[7]), 'receiver holds comments lexed no later than the appended ones')
+    res.floor('comment vector concatenations', n, 30)
+    return [res]
